@@ -90,7 +90,7 @@ pub fn gen_case(seed: u64, hist: u64) -> C14Case {
     let sched = sched::gen_sched(&mut r, h.steps.len());
     let hold_ms = if r.chance(1, 5) { 400 } else { 50 };
     let tail_writes = *r.pick(&[0u8, 0, 1, 2, 3]);
-    C14Case { sc: SchedCase { hist: h, sched, faults: vec![], reader_steps: vec![], gate_acks: true }, placement: r.below(4) as u8, k: r.range(1, 3) as u8, hold_ms, tail_writes, probe: r.chance(1, 2) }
+    C14Case { sc: SchedCase { hist: h, sched, faults: vec![], reader_steps: vec![], gate_acks: true }, placement: r.below(5) as u8, k: r.range(1, 3) as u8, hold_ms, tail_writes, probe: r.chance(1, 2) }
 }
 
 /// Grant permits to every parked thread except `except` until `until()` holds.
@@ -218,6 +218,41 @@ pub fn run_one(case: &C14Case) -> Result<(C14Stats, Option<Viol>), RunErr> {
                     out.stats.pending_unlinks_at_drop += 1;
                 }
             }
+            // --- placement 4: an opener that is already on its way when the drop starts. It is parked at the point
+            // where open() is about to take the directory lock (whatever it did before that point, it did while the
+            // old instance still owned the directory) and released only after drop() returned.
+            type Slot = Arc<std::sync::Mutex<Option<Result<Store, crate::store::Outcome>>>>;
+            let mut early: Option<(std::thread::JoinHandle<()>, Slot, Option<i32>)> = None;
+            if case.placement == 4 {
+                let cfg2 = r.st.cfg.clone();
+                let dir2 = r.st.dir.clone();
+                let slot: Slot = Arc::new(std::sync::Mutex::new(None));
+                let s2 = slot.clone();
+                let h = std::thread::Builder::new()
+                    .name("rlmon_aux_early_opener".into())
+                    .spawn(move || {
+                        let r = Store::open(&dir2, &cfg2, 2);
+                        *s2.lock().unwrap() = Some(r);
+                    })
+                    .expect("spawn opener");
+                let t0 = util::now_s();
+                let mut tid = None;
+                while util::now_s() - t0 < 5.0 {
+                    if slot.lock().unwrap().is_some() {
+                        break;
+                    }
+                    if let Some((t, _, _)) = trace::gate_all_lanes().iter().find(|(_, w, _)| matches!(w, Some(p) if p.kind == Sk::OpenRd && p.path == trace::LOCK_POINT)) {
+                        tid = Some(*t);
+                        break;
+                    }
+                    std::thread::yield_now();
+                }
+                if tid.is_some() {
+                    out.stats.opener_parked_mid_open += 1;
+                }
+                early = Some((h, slot, tid));
+            }
+            let early_tid = early.as_ref().and_then(|e| e.2);
             // --- drop on a helper thread
             let rl = r.st.rl.take().expect("store open");
             let inst = r.st.inst;
@@ -268,14 +303,14 @@ pub fn run_one(case: &C14Case) -> Result<(C14Stats, Option<Viol>), RunErr> {
             if !returned_early {
                 // a joining Drop: it can only return once the old worker has finished
                 out.stats.drop_waited_for_worker += 1;
-                let ok = pump(None, &|| dropped.load(Ordering::SeqCst), 20.0);
+                let ok = pump(early_tid, &|| dropped.load(Ordering::SeqCst), 20.0);
                 if !ok {
                     return Err(RunErr::Inconclusive("drop did not return although the worker was released".into()));
                 }
             }
             let _ = dropper.join();
             let old_alive = || old_tid.map(trace::thread_alive).unwrap_or(false);
-            let release_old_fully = || pump(None, &|| !old_tid.map(trace::thread_alive).unwrap_or(false), 20.0);
+            let release_old_fully = || pump(early_tid, &|| !old_tid.map(trace::thread_alive).unwrap_or(false), 20.0);
             let cfg = r.st.cfg.clone();
             let dirs = r.st.dir.clone();
             // --- reopen at the chosen placement
@@ -342,6 +377,24 @@ pub fn run_one(case: &C14Case) -> Result<(C14Stats, Option<Viol>), RunErr> {
                             return Ok(());
                         }
                         None => return Err(RunErr::Inconclusive("opener did not finish".into())),
+                    }
+                }
+                4 => {
+                    if !release_old_fully() {
+                        return Err(RunErr::Inconclusive("old worker did not end".into()));
+                    }
+                    let (h, slot, _) = early.take().expect("early opener");
+                    let _ = pump(old_tid, &|| slot.lock().unwrap().is_some(), 20.0);
+                    let _ = h.join();
+                    let taken = slot.lock().unwrap().take();
+                    match taken {
+                        Some(Ok(s)) => new_store = Some(s),
+                        Some(Err(o)) => {
+                            out.viol = Some(v(case, "reopen_failed", format!("an open() that was under way while the old instance was being dropped, and took the lock after drop() returned: {}", o.brief())));
+                            out.done = true;
+                            return Ok(());
+                        }
+                        None => return Err(RunErr::Inconclusive("early opener did not finish".into())),
                     }
                 }
                 _ => {
